@@ -16,7 +16,7 @@ pub static DEF: CheckDef = CheckDef {
     id: "C11",
     level: "exploration",
     technique: "deterministic component simulation of the trust engine with a Byzantine reporter population (closed Sybil set with drawn internal rating graphs) on the seeded runtime; oracle = mass bound on the closed set and anchor floor on the recomputed distribution",
-    runs: (1200, 40000),
+    runs: (3000, 60000),
     generate,
     execute,
     shrink,
